@@ -61,13 +61,14 @@ static const char *const op_names[K_N] = { "init", "open", "filter", "format", "
 #define MARK "@@P"
 
 // avoid tokens (SIMK_AVOID, read by gen() only; the run reads the mask from the plan so that replays are self-contained)
-enum { AV_A = 1, AV_B = 2, AV_C = 4, AV_D = 8, AV_E = 16 };
+enum { AV_A = 1, AV_B = 2, AV_C = 4, AV_D = 8, AV_E = 16, AV_F = 32 };
 static const struct { const char *tok; int bit; } avoid_tokens[] = {
 	{ "threaded-before-start", AV_A },   // threaded flag set but no logging thread: NULL lock dereference
 	{ "reinit-after-thread", AV_B },     // qb_log_init after a cycle that started the thread: stale thread state
 	{ "stale-threaded-flag", AV_C },     // a newly opened target inherits the threaded flag of the slot's previous user
 	{ "concurrent-producers", AV_D },    // two threads inside the log call: the second message is discarded silently
 	{ "close-while-busy", AV_E },        // qb_log_custom_close does not wait for the worker
+	{ "fini-with-backlog", AV_F },       // the worker can exit on the stop request with records still queued
 };
 
 // message states per target
@@ -389,6 +390,8 @@ static void logger_cb(int32_t pos, struct qb_log_callsite *cs, struct timespec *
 	int t = pos >= 0 && pos < NSLOT ? G.pos2t[pos] : -1;
 	const char *text = msg;
 	char *fbuf = NULL;
+	// from here on the logger of this target is busy (qb_log_target_format below takes the format lock: a scheduling point)
+	if (t >= 0) { G.T[t].in_cb++; G.T[t].cb_task = me; }
 	if (G.use_format && t >= 0) {
 		fbuf = (char *)malloc(2 * QB_LOG_ABSOLUTE_MAX_LEN + 512);
 		fbuf[0] = 0;
@@ -469,7 +472,6 @@ order_check:
 		last[p] = serial;
 	}
 	// a slow logger: the control task may run while the worker is inside the callback (holding its lock)
-	T.in_cb++; T.cb_task = me;
 	for (int i = 0; i < G.cb_yields; i++) yield(Y_OP, 7000 + (uint32_t)i);
 	T.in_cb--;
 }
@@ -650,6 +652,11 @@ static void note_control_start(int t, bool pauses)
 
 static void do_fini()
 {
+	if ((G.av & AV_F) && G.a.thr_live) {
+		// avoid rule: let the worker drain its queue first (a sleeping application lets every other task run until it blocks)
+		struct timespec ts = { 0, 1000 };
+		for (int k = 0; k < 50 && simk_nanosleep(&ts, NULL) != 0; k++) {}
+	}
 	size_t q = 0;
 	for (int t = 0; t < NT; t++) q += pending_must(t);
 	if (q > 0) count(p_fini_queue);
